@@ -1,6 +1,8 @@
 """C05 - emitted shell commands reproduce the computed environment when sourced.
 
-Model: coq/Model/Shell.v (emit/render and the shell fragment sh_lex/sh_run)   Theorems: coq/Props/C05.v
+Model: coq/Model/Shell.v (emit/render and the shell fragment sh_lex/sh_run), coq/Model/ShellSession.v (the
+command-line front end at every verbosity; several calls of the python interface in one process)
+Theorems: coq/Props/C05.v
 
 Three ties, all on the same generated cases:
   (1) model emit+render  vs  the text produced by the real eups.app.setup (a real Eups object whose
@@ -13,7 +15,10 @@ Three ties, all on the same generated cases:
       environment eups computed (os.environ of the implementation run), with the four variables the code
       refuses to unset kept.
 An end-to-end stream runs the real command class eups.setupcmd.EupsSetup on real stacks whose product
-directories contain blanks and metacharacters, and executes its standard output the same way.
+directories contain blanks and metacharacters, at every verbosity (-v 0 to 5 times, -q), and executes what the
+process wrote to file descriptor 1 the same way.  A python-interface stream makes several eups.setup /
+eups.unsetup calls in one process (no Eups object passed in) and sources each call's commands from the
+environment the process had at that call.
 """
 import io
 import json
@@ -153,8 +158,12 @@ def gen_delta(rng, stream="claim"):
         if stream == "outside" and rng.random() < 0.5:
             cand = [k for k, _ in old]
         forced = rng.sample(cand, min(len(cand), rng.choice([1, 1, 2])))
+    # the verbosity and quietness of the Eups object: the emitted commands must not depend on them
+    verbose = rng.choice([0, 0, 0, 1, 2, 3, 4, 5])
+    quiet = rng.choice([0, 1, 1])
     return {"kind": "delta", "stream": stream, "shell": shell, "product": product, "fwd": fwd,
-            "old": old, "new": new, "aliases": al, "oldaliases": oldal, "forced": forced}
+            "old": old, "new": new, "aliases": al, "oldaliases": oldal, "forced": forced,
+            "verbose": verbose, "quiet": quiet}
 
 
 def sweep_cases():
@@ -309,6 +318,8 @@ def impl_batch(cases, scratch):
         E.setup = fake_setup
         E.shell = c.get("shell", "sh")
         E.noaction = False
+        E.verbose = c.get("verbose", 0)
+        E.quiet = c.get("quiet", 1)
         E.oldEnviron = dict(baseline(c))
         E.aliases = dict((k, v) for k, v in c.get("aliases", []))
         E.oldAliases = dict((k, v) for k, v in c.get("oldaliases", []))
@@ -458,10 +469,11 @@ def shape_of(c):
     shapes = sorted({value_shape(v) for _, v in changed_items(c)}) or ["nochange"]
     old, new = dict(c["old"]), dict(c["new"])
     removed = [k for k in old if k not in new]
-    return "%s/%s/%s%s%s%s" % (c["stream"], "eups" if c["product"] == "eups" else "prod",
-                               "fwd" if c["fwd"] else "rev", "/removed" if removed else "",
-                               "/alias" if c["aliases"] or c["oldaliases"] else "",
-                               "/force" if c.get("forced") else "")
+    return "%s/%s/%s%s%s%s%s" % (c["stream"], "eups" if c["product"] == "eups" else "prod",
+                                 "fwd" if c["fwd"] else "rev", "/removed" if removed else "",
+                                 "/alias" if c["aliases"] or c["oldaliases"] else "",
+                                 "/force" if c.get("forced") else "",
+                                 "/verbose>3" if c.get("verbose", 0) > 3 else "")
 
 
 def compare(ctx, cases, scratch):
@@ -586,6 +598,26 @@ TABLE_EUPS = ('envPrepend(PATH, ${PRODUCT_DIR}/bin)\n'
 E2E_DIRS = ["my prods/a (v1);x", "p&q/<a>|b", "plain/a", "t\tab/a", "two  blanks/(a)", "semi;colon/a&b"]
 
 
+def verbosity_flags(rng):
+    """-v given 0 to 5 times, in the three spellings optparse accepts, and sometimes -q"""
+    nv = rng.choice([0, 0, 1, 2, 3, 4, 4, 5])
+    r = rng.random()
+    flags = ["-v"] * nv if r < 0.5 else (["-" + "v" * nv] if nv and r < 0.8 else ["--verbose"] * nv)
+    if rng.random() < 0.2:
+        flags.insert(rng.randrange(len(flags) + 1), rng.choice(["-q", "--quiet"]))
+    return flags
+
+
+E2E_PRODUCTS = [("a", "1.0", "{d}", None), ("a", "2.0", "{d}-2", "envPrepend(PATH, ${PRODUCT_DIR}/bin)\n"),
+                ("b", "1.1", "{d}/../b dir", None), ("eups", "9", "e ups", None)]
+
+
+def e2e_products(d):
+    tables = {"a": TABLE_A, "b": TABLE_B, "eups": TABLE_EUPS}
+    return [{"name": n, "version": v, "dir": dd.replace("{d}", d), "table": t or tables[n]}
+            for n, v, dd, t in E2E_PRODUCTS]
+
+
 def e2e_scenarios(rng, n):
     out = []
     base = [
@@ -602,6 +634,9 @@ def e2e_scenarios(rng, n):
     ]
     for i in range(n):
         steps = base[i % len(base)]
+        if i >= len(base) or i % 2:
+            # the same requests at some verbosity: what reaches standard output must not depend on it
+            steps = [verbosity_flags(rng) + st for st in steps]
         d = E2E_DIRS[i % len(E2E_DIRS)] if i < len(E2E_DIRS) * 2 else rng.choice(E2E_DIRS)
         extra = {}
         if rng.random() < 0.5:
@@ -610,11 +645,18 @@ def e2e_scenarios(rng, n):
             extra["A_EXTRA"] = rng.choice(["preexisting", "x y"])
         if rng.random() < 0.4:
             extra["EUPS_DIR"] = "/opt/eups (sys)"
-        out.append({"kind": "e2e", "stream": "e2e", "extra_env": extra, "steps": steps,
-                    "products": [{"name": "a", "version": "1.0", "dir": d, "table": TABLE_A},
-                                 {"name": "a", "version": "2.0", "dir": d + "-2", "table": "envPrepend(PATH, ${PRODUCT_DIR}/bin)\n"},
-                                 {"name": "b", "version": "1.1", "dir": d + "/../b dir", "table": TABLE_B},
-                                 {"name": "eups", "version": "9", "dir": "e ups", "table": TABLE_EUPS}]})
+        out.append({"kind": "e2e", "stream": "e2e", "extra_env": extra, "steps": steps, "products": e2e_products(d)})
+    return out
+
+
+def verbosity_family():
+    """setup then unsetup of a product with a dependency and a shell function, at every verbosity 0..5 and
+    with -q (alone and together with -v -v -v -v): deterministic, every level on every run"""
+    out = []
+    levels = [(["-v"] * nv) for nv in range(6)] + [["-q"], ["-q", "-v", "-v", "-v", "-v"]]
+    for i, fl in enumerate(levels):
+        out.append({"kind": "e2e", "stream": "e2e", "extra_env": {"MANPATH": "/m 1:/m;2"},
+                    "steps": [fl + ["b"], fl + ["-u", "b"]], "products": e2e_products(E2E_DIRS[i % len(E2E_DIRS)])})
     return out
 
 
@@ -632,14 +674,51 @@ def e2e_declare(env0, prods):
     return True
 
 
+def capture_fds(fn):
+    """child: run fn() with file descriptors 1 and 2 pointed at anonymous files; returns (result, stdout text,
+    stderr text).  What the process writes to descriptor 1 - whoever writes it, through sys.stdout or not - is
+    what the shell wrapper sources."""
+    sys.stdout.flush()
+    sys.stderr.flush()
+    mem = {n: os.memfd_create("c05fd%d" % n) for n in (1, 2)}
+    saved = {n: os.dup(n) for n in (1, 2)}
+    for n in (1, 2):
+        os.dup2(mem[n], n)
+    try:
+        res = fn()
+    finally:
+        sys.stdout.flush()
+        sys.stderr.flush()
+        for n in (1, 2):
+            os.dup2(saved[n], n)
+            os.close(saved[n])
+    texts = []
+    for n in (1, 2):
+        os.lseek(mem[n], 0, os.SEEK_SET)
+        with os.fdopen(mem[n], "rb") as f:
+            texts.append(f.read().decode("utf-8", "surrogateescape"))
+    return res, texts[0], texts[1]
+
+
+def verbosity_of(args):
+    """the number of -v / --verbose on a setup command line (the words before the product), and whether -q is"""
+    nv, q = 0, False
+    for a in args:
+        if a == "--verbose":
+            nv += 1
+        elif a in ("-q", "--quiet"):
+            q = True
+        elif re.match(r"-v+\Z", a):
+            nv += len(a) - 1
+    return nv, q
+
+
 def e2e_step(env0, args):
-    """child: one invocation of the real setup command, standard output captured; the new environment, the
-    baseline and the alias tables are snapshotted by wrappers around Eups.setup and eups.setup (the code under
-    test is not modified)"""
+    """child: one invocation of the real setup command; its standard output and standard error are captured at
+    the file-descriptor level; the new environment, the baseline and the alias tables are snapshotted by wrappers
+    around Eups.setup and eups.setup (the code under test is not modified)"""
     os.environ.clear()
     os.environ.update(env0)
-    devnull = os.open(os.devnull, os.O_WRONLY)
-    os.dup2(devnull, 2)
     eups = common.import_eups()
     import eups.setupcmd as sc
     snap = {}
@@ -657,6 +736,8 @@ def e2e_step(env0, args):
         snap["product"] = productName
         snap["fwd"] = k.get("fwd", True)
         snap["failed"] = (cmds == ["false"])
+        snap["cmds"] = list(cmds)
+        snap["verbose"] = E.verbose
         snap["old"] = list(E.oldEnviron.items())
         snap["aliases"] = list(E.aliases.items())
         snap["oldaliases"] = list(E.oldAliases.items())
@@ -665,18 +746,15 @@ def e2e_step(env0, args):
 
     eups.Eups.setup = spy_method
     eups.setup = spy_fn
-    buf = io.StringIO()
-    so = sys.stdout
-    sys.stdout = buf
-    status = None
-    try:
+
+    def call():
         try:
-            status = sc.EupsSetup(args=list(args)).run()
+            return sc.EupsSetup(args=list(args)).run()
         except Exception as e:  # noqa   (bin/eups_setup prints the message and the word false)
-            status = "exc:" + type(e).__name__
-    finally:
-        sys.stdout = so
-    return {"status": status, "text": buf.getvalue(), "final": dict(os.environ), "snap": snap}
+            return "exc:" + type(e).__name__
+
+    status, out, err = capture_fds(call)
+    return {"status": status, "text": out, "stderr": err, "final": dict(os.environ), "snap": snap}
 
 
 LOCKPID = "EUPS_LOCK_PID"       # bookkeeping of lock.py for child processes, set before oldEnviron is copied
@@ -712,8 +790,10 @@ def e2e_compare(ctx, cases, scratch):
             snap = res["snap"]
             sub = {"kind": "e2e", "stream": "e2e", "extra_env": c.get("extra_env", {}), "products": c["products"],
                    "steps": c["steps"][:si + 1]}
+            nv, quiet = verbosity_of(step)
             label = "e2e/" + ("unsetup" if "-u" in step else "setup") + ("/force" if "-F" in step else "") + \
-                    ("/local" if "-r" in step else "") + ("/eups" if "eups" in step else "")
+                    ("/local" if "-r" in step else "") + ("/eups" if "eups" in step else "") + \
+                    ("/v%d" % min(nv, 5) if nv else "") + ("/q" if quiet else "")
             shells = shells_batch(scratch, [(res["text"], sorted(env.items()))])[0]
             if "product" not in snap or snap.get("failed"):
                 # nothing was set up: the text is the word false (or empty when the command bailed out early)
@@ -738,10 +818,30 @@ def e2e_compare(ctx, cases, scratch):
             if dict(baseline(mc)) != old:
                 ctx.disagree(sub, {"baseline": dict(baseline(mc))}, {"oldEnviron": old},
                              where="e2e: oldEnviron is not the caller's environment minus forgotten names")
-            m = model_result(mc, ctx.model([to_line(mc)])[0])
+            mlines = ctx.model([to_line(mc), "\t".join(["front", str(nv), "1" if quiet else "0",
+                                                        common.enc_list(",", snap["cmds"])])])
+            m = model_result(mc, mlines[0])
             ctx.count(1, key=label, nontrivial=json.dumps([c["products"][0]["dir"], c.get("extra_env"), c["steps"][:si + 1]]))
             if "err" in m or m["text"] != res["text"]:
                 ctx.disagree(sub, m, {"text": res["text"]}, where="e2e-emit")
+            # the front end: standard output is the rendered return value of eups.setup at every verbosity; the
+            # listing goes to standard error, above verbosity 3 only
+            ff = mlines[1].split("\t") + ["", ""]
+            if ff[0] != "ok":
+                ctx.disagree(sub, {"front": mlines[1]}, {}, where="e2e-front-end")
+            else:
+                want_out = dec(ff[1])
+                want_lst = dec(ff[2][1:]) if ff[2].startswith("L") else None
+                eff = 0 if quiet else nv
+                if snap.get("verbose") != eff:
+                    ctx.disagree(sub, {"verbose": eff}, {"verbose": snap.get("verbose")}, where="e2e-front-end: Eups.verbose")
+                if want_out != res["text"]:
+                    ctx.disagree(sub, {"stdout": want_out}, {"stdout": res["text"]},
+                                 where="e2e-front-end: standard output is not the joined command list")
+                if (want_lst is not None and not res["stderr"].endswith(want_lst)) or \
+                        (want_lst is None and "Issuing commands:" in res["stderr"]):
+                    ctx.disagree(sub, {"listing": want_lst}, {"stderr-tail": res["stderr"][-600:]},
+                                 where="e2e-front-end: listing on standard error")
             # tie 3, the property itself: the shell starts from the caller's environment and must end with what
             # eups computed (lock bookkeeping aside); names and changed values must be in the claim
             final = {k: v for k, v in res["final"].items() if k != LOCKPID}
@@ -776,8 +876,308 @@ def e2e_compare(ctx, cases, scratch):
         shutil.rmtree(root, ignore_errors=True)
 
 
+# ------------------------------------------------------------------ the python interface, several calls per process
+
+TABLE_C = ('envPrepend(C_PATH, ${PRODUCT_DIR}/lib)\n'
+           'envSet(C_OPTS, -x <none>)\n')
+TABLE_D = ('setupRequired(c)\n'
+           'envPrepend(C_PATH, ${PRODUCT_DIR}/lib)\n'
+           'envSet(D_MODE, fast)\n')
+API_CALLS = [["setup", ["a"], {}], ["setup", ["a", "1.0"], {}], ["setup", ["a", "2.0"], {}], ["setup", ["b"], {}],
+             ["setup", ["c"], {}], ["setup", ["d"], {}], ["setup", ["c", "3"], {}],
+             ["unsetup", ["a"], {}], ["unsetup", ["b"], {}], ["unsetup", ["c"], {}], ["unsetup", ["d"], {}],
+             ["setup", ["d"], {"fwd": False}], ["setup", ["a"], {"productRoot": "{dir:a}"}],
+             ["setup", ["nosuchproduct"], {}], ["unsetup", ["nosuchproduct"], {}], ["setup", ["eups"], {}],
+             ["unsetup", ["eups"], {}]]
+API_BASE = [
+    [["setup", ["c", "3"], {}], ["unsetup", ["c"], {}]],
+    [["setup", ["d"], {}], ["unsetup", ["d"], {}], ["setup", ["d"], {}], ["unsetup", ["c"], {}]],
+    [["setup", ["b"], {}], ["unsetup", ["a"], {}], ["unsetup", ["b"], {}]],
+    [["setup", ["a"], {}], ["setup", ["a", "2.0"], {}], ["unsetup", ["a"], {}]],
+    [["setup", ["c"], {}], ["setup", ["nosuchproduct"], {}], ["setup", ["d"], {"fwd": False}]],
+    [["setup", ["a"], {"productRoot": "{dir:a}"}], ["setup", ["d"], {}], ["unsetup", ["a"], {}], ["unsetup", ["d"], {}]],
+    [["setup", ["d"], {}], ["setup", ["eups"], {}], ["unsetup", ["d"], {}], ["unsetup", ["eups"], {}]],
+]
+
+
+def api_scenarios(rng, n):
+    """sequences of eups.setup / eups.unsetup calls made by ONE process through the python interface without an
+    Eups object of the caller's: every call must compute its delta against the environment at that call"""
+    out = []
+    for i in range(n):
+        if i < len(API_BASE):
+            calls = API_BASE[i]
+        else:
+            # mostly meaningful requests: unsetup of something an earlier call set up (itself or as a dependency)
+            calls, up = [], []
+            deps = {"b": ["a"], "d": ["c"]}
+            for _ in range(rng.choice([2, 3, 3, 4, 5])):
+                r = rng.random()
+                if r < 0.12:
+                    call = rng.choice(API_CALLS)
+                elif up and r < 0.55:
+                    nm = rng.choice(up)
+                    call = rng.choice([["unsetup", [nm], {}], ["unsetup", [nm], {}], ["setup", [nm], {"fwd": False}]])
+                else:
+                    call = rng.choice([x for x in API_CALLS if x[0] == "setup" and x[2].get("fwd", True)
+                                       and x[1][0] != "nosuchproduct"])
+                calls.append(call)
+                nm = call[1][0]
+                if call[0] == "setup" and call[2].get("fwd", True):
+                    up += [x for x in [nm] + deps.get(nm, []) if x not in up and x != "nosuchproduct"]
+                else:
+                    up = [x for x in up if x != nm and x not in deps.get(nm, [])]
+        d = E2E_DIRS[i % len(E2E_DIRS)] if i < len(E2E_DIRS) else rng.choice(E2E_DIRS)
+        extra = {}
+        if rng.random() < 0.4:
+            extra["C_PATH"] = rng.choice(["/usr/lib/c", "", "/c 1:/c;2"])
+        if rng.random() < 0.3:
+            extra["C_OPTS"] = rng.choice(["preexisting", "-x <none>"])
+        if rng.random() < 0.3:
+            extra["EUPS_DIR"] = "/opt/eups (sys)"
+        prods = e2e_products(d) + [{"name": "c", "version": "3", "dir": d + "/../c (lib)", "table": TABLE_C},
+                                   {"name": "d", "version": "0.4", "dir": d + "/../d&d", "table": TABLE_D}]
+        out.append({"kind": "api", "stream": "api", "extra_env": extra, "calls": calls, "products": prods})
+    return out
+
+
+def api_child(env0, calls):
+    """child: the calls, one after the other, in this one process; for each the environment before, the returned
+    commands, the environment after, and (read off the Eups object the call made for itself, caught by a wrapper
+    around Eups.setup) the baseline and the alias tables"""
+    os.environ.clear()
+    os.environ.update(env0)
+    eups = common.import_eups()
+    snap = {}
+    orig_method = eups.Eups.setup
+
+    def spy_method(self, *a, **k):
+        r = orig_method(self, *a, **k)
+        snap["new"] = list(os.environ.items())      # the outermost call returns last and overwrites
+        snap["E"] = self
+        return r
+
+    eups.Eups.setup = spy_method
+    out = []
+    for fn, args, kw in calls:
+        snap.clear()
+        before = dict(os.environ)
+
+        def call():
+            try:
+                return list(getattr(eups, fn)(*args, **kw))
+            except Exception as e:  # noqa
+                return "exc:" + type(e).__name__ + ":" + str(e)[:200]
+
+        cmds, sout, _ = capture_fds(call)
+        rec = {"before": before, "cmds": cmds, "stdout": sout, "after": dict(os.environ)}
+        if "E" in snap:
+            E = snap["E"]
+            rec.update(new=snap["new"], old=list(E.oldEnviron.items()), aliases=list(E.aliases.items()),
+                       oldaliases=list(E.oldAliases.items()), shell=E.shell)
+        out.append(rec)
+        if not isinstance(cmds, list):
+            break
+    return out
+
+
+def api_world(c, scratch, tag):
+    root = os.path.join(scratch, tag)
+    stack = os.path.join(root, "stack")
+    os.makedirs(os.path.join(stack, "ups_db"))
+    os.makedirs(os.path.join(root, "ud", "ups_db"))
+    dirs, prods = {}, []
+    for p in c["products"]:
+        d = os.path.normpath(os.path.join(root, "prods", p["dir"]))
+        os.makedirs(os.path.join(d, "ups"), exist_ok=True)
+        os.makedirs(os.path.join(d, "extra", "ups_db"), exist_ok=True)
+        with open(os.path.join(d, "ups", p["name"] + ".table"), "w") as f:
+            f.write(p["table"])
+        dirs.setdefault(p["name"], d)
+        prods.append((p["name"], p["version"], d))
+    env = common.scrubbed_environ({"EUPS_PATH": stack, "EUPS_USERDATA": os.path.join(root, "ud"),
+                                   "EUPS_FLAVOR": "Linux64"})
+    env.update(c.get("extra_env", {}))
+    r = common.in_child(e2e_declare, env, prods)
+    if r[0] != "ok":
+        raise RuntimeError("cannot declare the products: %r" % (r,))
+    return root, env, dirs
+
+
+def api_run(c, scratch, tag):
+    """declare the products of the scenario, make the calls in one child; returns (records, calls as made)"""
+    root, env, dirs = api_world(c, scratch, tag)
+    try:
+        def subst(x):
+            return re.sub(r"\{dir:(\w+)\}", lambda m: dirs[m.group(1)], x) if isinstance(x, str) else x
+        calls = [[fn, [subst(a) for a in args], {k: subst(v) for k, v in kw.items()}] for fn, args, kw in c["calls"]]
+        r = common.in_child(api_child, env, calls)
+        if r[0] != "ok":
+            raise RuntimeError("python-interface session failed: %r" % (r,))
+        return r[1], calls
+    finally:
+        shutil.rmtree(root, ignore_errors=True)
+
+
+def api_text(cmds):
+    """what a script that sources the returned commands evaluates (the way setupcmd.py joins them)"""
+    return ";\n".join(cmds) + "\n"
+
+
+def api_oracle(c, recs, scratch):
+    """the property, call by call: the shell starts from the environment the process had at the call and must
+    end with the environment the process has after it.  Returns (index of the first failing call, kind, expected,
+    observed, what) or None; and the shells' results"""
+    jobs, idx = [], []
+    for i, rec in enumerate(recs):
+        if isinstance(rec["cmds"], list):
+            jobs.append((api_text(rec["cmds"]), sorted(rec["before"].items())))
+            idx.append(i)
+    sres = dict(zip(idx, shells_batch(scratch, jobs)))
+    for i, rec in enumerate(recs):
+        if i not in sres:
+            continue
+        fn, args, kw = c["calls"][i]
+        before, after = rec["before"], rec["after"]
+        failed = rec["cmds"] == ["false"]
+        exp = dict(before) if failed else dict(after)
+        if not failed and args[0] != "eups":
+            for k in PROTECTED:
+                if k in before and k not in after:
+                    exp[k] = before[k]
+        inside = all(valid_name(k) for k in list(before) + list(after)) and \
+            (failed or all(set(v) <= CLAIM for k, v in after.items() if before.get(k) != v))
+        if not inside:
+            continue
+        call = "eups.%s(%s)" % (fn, ", ".join([repr(a) for a in args] + ["%s=%r" % kv for kv in sorted(kw.items())]))
+        for sh, (got, err) in sorted(sres[i].items()):
+            if got is None:
+                return (i, "shell-error", None, err[:300], "%s reports an error sourcing the commands of call %d, %s" % (sh, i + 1, call)), sres
+            if got != exp:
+                k = sorted(k for k in set(got) | set(exp) if got.get(k) != exp.get(k))[0]
+                kc = {"old": list(before.items()), "new": list(after.items()), "product": args[0]}
+                kind = "failed-changes-nothing" if failed else classify(kc, k)
+                return (i, kind, {k: exp.get(k)}, {k: got.get(k), "shell": sh},
+                        "after sourcing in %s the commands returned by call %d, %s, of one python process, variable %s "
+                        "is %r; eups computed %r" % (sh, i + 1, call, k, got.get(k), exp.get(k))), sres
+    return None, sres
+
+
+def api_shrink(c, bad, scratch):
+    """keep the calls up to the failing one; drop earlier calls while the last one still fails the same way;
+    returns the smaller scenario and the oracle's verdict on it"""
+    cur = dict(c, calls=c["calls"][:bad[0] + 1])
+    i = 0
+    while i < len(cur["calls"]) - 1:
+        t = dict(cur, calls=cur["calls"][:i] + cur["calls"][i + 1:])
+        try:
+            recs, _ = api_run(t, scratch, "shrink")
+            b, _ = api_oracle(t, recs, scratch)
+        except RuntimeError:
+            b = None
+        if b is not None and b[0] == len(t["calls"]) - 1 and b[1] == bad[1]:
+            cur, bad = t, b
+        else:
+            i += 1
+    return cur, bad
+
+
+def api_delta(call, rec):
+    """the call as a case of the emitter: the environment at the call, the one the call computed, the alias tables"""
+    fn, args, kw = call
+    before, old = rec["before"], dict(rec["old"])
+    return {"kind": "delta", "stream": "api", "shell": rec["shell"], "product": args[0],
+            "fwd": (fn == "setup" and kw.get("fwd", True)),
+            "old": [[k, v] for k, v in before.items()], "new": [list(kv) for kv in rec["new"]],
+            "aliases": [list(kv) for kv in rec["aliases"]], "oldaliases": [list(kv) for kv in rec["oldaliases"]],
+            "forced": [k for k in before if k not in old]}
+
+
+def api_compare(ctx, cases, scratch):
+    for n, c in enumerate(cases):
+        recs, calls = api_run(c, scratch, "api%d" % n)
+        bad, sres = api_oracle(c, recs, scratch)
+        session, texts, plain = [], [], True
+        mcs = {i: api_delta(c["calls"][i], rec) for i, rec in enumerate(recs)
+               if isinstance(rec["cmds"], list) and rec["cmds"] != ["false"] and "new" in rec}
+        order = sorted(mcs)
+        mres = dict(zip(order, [model_result(mcs[i], o) for i, o in
+                                zip(order, ctx.model([to_line(mcs[i]) for i in order]))]))
+        for i, rec in enumerate(recs):
+            fn, args, kw = c["calls"][i]
+            sub = dict(c, calls=c["calls"][:i + 1])
+            fwd = (fn == "setup" and kw.get("fwd", True))
+            label = "api/call%d/%s" % (min(i + 1, 4), "setup" if fwd else "unsetup") + \
+                    ("/local" if "productRoot" in kw else "") + ("/eups" if args[0] == "eups" else "")
+            key = json.dumps([c["products"][0]["dir"], c.get("extra_env"), c["calls"][:i + 1]], sort_keys=True)
+            if not isinstance(rec["cmds"], list):
+                ctx.count(1, key=label + "/raises", nontrivial=None)
+                plain = False
+                break
+            if rec["cmds"] == ["false"] or "new" not in rec:
+                ctx.count(1, key=label + "/failed", nontrivial=key)
+                if rec["cmds"] != ["false"]:
+                    ctx.disagree(sub, {"cmds": ["false"]}, {"cmds": rec["cmds"]}, where="api-emit")
+                session.append(["f", enc_env(list(rec["after"].items())), "", ""])
+                texts.append(api_text(rec["cmds"]))
+                continue
+            # tie 1: the model emitter on the environment at the call and the one the call computed
+            before, old = rec["before"], dict(rec["old"])
+            mc = mcs[i]
+            if old != before:
+                ctx.disagree(sub, {"baseline": before}, {"oldEnviron": old},
+                             where="api: Eups.oldEnviron of call %d is not the environment of the process at the call" % (i + 1))
+            m = mres[i]
+            ctx.count(1, key=label + ("/later" if i else ""), nontrivial=key)
+            if "err" in m or m["text"] != api_text(rec["cmds"]):
+                ctx.disagree(sub, m, {"text": api_text(rec["cmds"])}, where="api-emit")
+            session.append(["c%d%d" % (args[0] == "eups", fwd), enc_env(rec["new"]), enc_env(rec["aliases"]),
+                            enc_oldal(rec["oldaliases"])])
+            texts.append(api_text(rec["cmds"]))
+        if session:
+            # the session model: baselines chained by the model itself, from the start environment only
+            start = list(recs[0]["before"].items())     # in the order of the process: the unset commands follow it
+            line = "\t".join(["session", enc_env(start)] + [x for call in session for x in call])
+            f = ctx.model([line])[0].split("\t") + [""] * 6
+            if f[0] != "ok":
+                if not (f[0] == "err" and any(not isinstance(r["cmds"], list) for r in recs)):
+                    ctx.disagree(c, {"session": f[:2]}, {"texts": texts}, where="api-session")
+            else:
+                mtexts = common.dec_list(",", f[1])
+                if mtexts != texts:
+                    j = [k for k in range(min(len(mtexts), len(texts))) if mtexts[k] != texts[k]]
+                    ctx.disagree(dict(c, calls=c["calls"][:(j[0] + 1 if j else len(texts))]),
+                                 {"text": mtexts[j[0]] if j else mtexts}, {"text": texts[j[0]] if j else texts},
+                                 where="api-session: text of call %s against the model's chained baseline" % (j[0] + 1 if j else "?"))
+                elif f[4] == "ok":
+                    # one shell sourcing all the texts in turn, against the model shell doing the same
+                    chain = shells_batch(scratch, [("".join(texts), start)])[0]
+                    want = dict(dec_env(f[5]))
+                    for sh, (got, err) in sorted(chain.items()):
+                        if got != want:
+                            ctx.disagree(c, {"chain": want}, {"shell": sh, "env": got, "stderr": err[:300]}, where="api-session: shell-spec on the chain")
+                    if f[2] == "11" and want != dict(dec_env(f[3])):
+                        ctx.disagree(c, {"chain": want}, {"session_final": dict(dec_env(f[3]))}, where="api-session: api_session_chained")
+                    ctx.bump("api/session-chained" + ("/in-claim+keeps" if f[2] == "11" else ""))
+                    ctx.traces_validated += 1
+        if bad is not None:
+            small, bad = api_shrink(c, bad, scratch)
+            ctx.fail(bad[1], small, expected=bad[2], observed=bad[3], what=bad[4])
+        else:
+            ctx.traces_validated += len(sres)
+
+
+def slow_size(ctx, quick, thorough):
+    """sizes of the streams that fork a process per step: at most doubled by the enlarged search of main.py"""
+    return thorough if ctx.tier == "thorough" else quick * min(ctx.scale, 2)
+
+
+def run_api(ctx, scratch):
+    api_compare(ctx, api_scenarios(ctx.rng, slow_size(ctx, 14, 150)), scratch)
+
+
 def run_e2e(ctx, scratch):
-    e2e_compare(ctx, e2e_scenarios(ctx.rng, ctx.size(12, 120)), scratch)
+    e2e_compare(ctx, verbosity_family() + e2e_scenarios(ctx.rng, slow_size(ctx, 12, 140)), scratch)
 
 
 def corpus_cases():
@@ -812,7 +1212,9 @@ def setup_ctx(ctx):
         "unsetup of product eups: EUPS_PATH, EUPS_PKGROOT, EUPS_SHELL are not introduced by the unsetup itself (gone_ok)",
         "the text is evaluated as a script (sourced, or eval of the quoted text), not word-split first",
         "alias names are not names of environment variables; function bodies are not executed by the specification",
-        "the shell's start environment is Eups.oldEnviron (the caller's environment after setEupsPath normalised EUPS_PATH)",
+        "the shell's start environment is Eups.oldEnviron (the caller's environment after setEupsPath normalised EUPS_PATH); "
+        "python interface: the caller's environment of a call is os.environ of the process at that call, and an Eups object "
+        "passed in by the caller (eupsenv=) carries the caller's own baseline - sessions sharing one such object are not run",
         "ASCII values; csh, --noaction (echo) and --force (oldEnviron edited by the table actions) are not modelled"]
 
 
@@ -825,7 +1227,8 @@ def run(ctx):
     try:
         corpus = corpus_cases()
         e2e_compare(ctx, [c for c in corpus if c.get("kind") == "e2e"], scratch)      # corpus first
-        corpus = [c for c in corpus if c.get("kind") != "e2e"]
+        api_compare(ctx, [c for c in corpus if c.get("kind") == "api"], scratch)
+        corpus = [c for c in corpus if c.get("kind") not in ("e2e", "api")]
         cases = corpus + sweep_cases()
         cases.append({"kind": "failed", "stream": "claim", "old": [["PATH", "/usr/bin"], ["A", "x y"]]})
         n = ctx.size(1500, 20000)
@@ -842,6 +1245,7 @@ def run(ctx):
         for i in range(0, len(cases), 4000):
             compare(ctx, cases[i:i + 4000], scratch)
         run_e2e(ctx, scratch)
+        run_api(ctx, scratch)
     finally:
         shutil.rmtree(scratch, ignore_errors=True)
 
@@ -854,6 +1258,8 @@ def replay(ctx, path):
     try:
         if c.get("kind") == "e2e":
             e2e_compare(ctx, [c], scratch)
+        elif c.get("kind") == "api":
+            api_compare(ctx, [c], scratch)
         else:
             compare(ctx, [c], scratch)
     finally:
